@@ -21,8 +21,8 @@ def shapeOf (j : Option Json) : R Gen.C14.Shape :=
   | some v => do
     let s ← rawStr v
     if s == "gen" then pure Gen.C14.shape
-    else if s == "pinned" then pure { initAnchor := .now, missAnchor := .now, hitChecksType := false, hitChecksMethod := false }
-    else if s == "repaired" then pure { initAnchor := .created, missAnchor := .created, hitChecksType := true, hitChecksMethod := true }
+    else if s == "pinned" then pure { initAnchor := .now, missAnchor := .now, hitChecksType := false, hitChecksMethod := false, hitRefreshes := false }
+    else if s == "repaired" then pure { initAnchor := .created, missAnchor := .created, hitChecksType := true, hitChecksMethod := true, hitRefreshes := false }
     else throw s!"unknown shape {s}"
 
 def cfgOf (a : Json) : R Cfg := do
@@ -90,6 +90,7 @@ def handle (fn : String) (a : Json) : R Json := do
                ("missAnchor", Json.str (if Gen.C14.shape.missAnchor = .created then "created" else "now")),
                ("hitChecksType", ofBool Gen.C14.shape.hitChecksType),
                ("hitChecksMethod", ofBool Gen.C14.shape.hitChecksMethod),
+               ("hitRefreshes", ofBool Gen.C14.shape.hitRefreshes),
                ("callBindsMethod", ofBool Gen.C14.callBindsMethod),
                ("cacheTtl0", ofNat (Gen.C14.cacheTtl 0))])
   | _ => throw s!"unknown function C14.{fn}"
